@@ -54,7 +54,8 @@ def strategy(cfg):
     op = st.tuples(st.sampled_from(DEEP_OPS if cfg.get("deep") else OPS), st.integers(0, 11), st.integers(0, 7),
                    st.integers(0, 3))
     return st.fixed_dictionaries({"headers": st.sampled_from(HEADER_SETS),
-                                  "title": st.sampled_from(["T", "Top title", "A longer document title 123"]),
+                                  "title": st.sampled_from(["T", "Top title", "A longer document title 123",
+                                                            "\u6a21\u5757 docs", "a\u0301\u0301 combining", "\uff21\uff22 wide"]),
                                   "ops": st.lists(op, min_size=1, max_size=cfg["max_ops"])})
 
 
